@@ -111,7 +111,7 @@ private:
     template <size_t N, typename... Us>
     friend constexpr auto get(tuple<Us...>& t) -> auto&; // NOLINT
     template <size_t N, typename... Us>
-    friend constexpr auto get(tuple<Us...> const& t) -> auto const&; // NOLINT
+    friend constexpr auto get(tuple<Us...> const& t) -> decltype(auto); // NOLINT
     template <size_t N, typename... Us>
     friend constexpr auto get(tuple<Us...>&& t) -> auto&&; // NOLINT
     template <size_t N, typename... Us>
@@ -135,7 +135,7 @@ private:
     }
 
     template <etl::size_t I>
-    [[nodiscard]] constexpr auto get_impl(etl::index_constant<I> ic) const& noexcept -> auto const&
+    [[nodiscard]] constexpr auto get_impl(etl::index_constant<I> ic) const& noexcept -> decltype(auto)
     {
         return _impl.get_impl(ic);
     }
@@ -203,7 +203,7 @@ template <etl::size_t I, typename... Ts>
 }
 
 template <etl::size_t I, typename... Ts>
-[[nodiscard]] constexpr auto get(tuple<Ts...> const& t) -> auto const&
+[[nodiscard]] constexpr auto get(tuple<Ts...> const& t) -> decltype(auto)
 {
     static_assert(I < sizeof...(Ts));
     return t.template get_impl<I>(etl::index_v<I>);
